@@ -8,6 +8,10 @@ Engine E, three parts:
   stack      the real layer stack of an explicit HTTP proxy spoken to over TLS (secure web proxy:
              modes.HttpProxy / HttpUpstreamProxy + the real NextLayer addon + the real TlsConfig addon),
              handshake completed through ClientTLSLayer
+  server-first  the upstream protocol is known from a *real* upstream handshake: reverse proxy to a TLS upstream
+             (eager connection strategy), the real ServerTLSLayer handshakes with an independent stdlib-ssl server
+             (with / without ALPN support) before the client's TLS context is built; the known upstream protocol is
+             what that server reports, and the client must end up with it or with none
 """
 from __future__ import annotations
 
@@ -17,6 +21,8 @@ import os
 import shutil
 import ssl
 
+from cryptography import x509
+from cryptography.hazmat.primitives import serialization
 from OpenSSL import SSL
 
 from mitmproxy import connection
@@ -184,8 +190,26 @@ def env():
     # negotiated); it is never told that it is running, so it opens no socket
     tctx = taddons.context(nl, tc, proxyserver_addon.Proxyserver())
     tctx.configure(tc, confdir=os.path.join(d, "c18-conf"))
-    _ENV.update(tc=tc, nl=nl, tctx=tctx, dir=d)
+    # certificate + key for the in-memory upstream server of the server-first cases. Upstream certificate
+    # verification is C15's subject, not this property's: it is switched off.
+    tctx.options.ssl_insecure = True
+    entry = tc.certstore.get_cert("up.example", [x509.DNSName("up.example")])
+    pem = os.path.join(d, "c18-upstream.pem")
+    with open(pem, "wb") as fh:
+        fh.write(entry.privatekey.private_bytes(serialization.Encoding.PEM, serialization.PrivateFormat.TraditionalOpenSSL, serialization.NoEncryption()))
+        fh.write(entry.cert.to_pem())
+    _ENV.update(tc=tc, nl=nl, tctx=tctx, dir=d, upstream_pem=pem)
     return _ENV
+
+
+def upstream_peer(alpn):
+    """an independent TLS server (stdlib ssl, memory BIOs); alpn: None = the server does not do ALPN at all"""
+    c = ssl.SSLContext(ssl.PROTOCOL_TLS_SERVER)
+    c.load_cert_chain(env()["upstream_pem"])
+    if alpn:
+        c.set_alpn_protocols([a.decode() for a in alpn])
+    inc, out = ssl.MemoryBIO(), ssl.MemoryBIO()
+    return c.wrap_bio(inc, out, server_side=True), inc, out
 
 
 def std_client(offers, sni="proxy.example"):
@@ -363,11 +387,115 @@ def stack_case(case, t: Tally, verbose=False):
     t.outcome(["stack", f0["mode"], http2, pcls(sel), f["override_applied"]])
 
 
+SF_MODES = ["reverse:https://up.example:443", "reverse:tls://up.example:443"]
+# what the upstream server supports: no ALPN at all, h2+http/1.1, http/1.1 only, something the client may not offer
+SF_UPSTREAM_ALPN = [None, [H2, H11], [H11], [FOO]]
+SF_OFFERS = [[], [H2, H11], [H11, H2], [H11], [H2], [FOO, H11]]
+
+
+def serverfirst_case(case, t: Tally, verbose=False):
+    """the upstream protocol is *known*: a reverse proxy to a TLS upstream with the default eager connection
+    strategy completes the real upstream handshake (against an independent stdlib-ssl server) before the client's
+    TLS context is built; then the client handshake is completed.  Everything above the sockets is real."""
+    mode, up_alpn, http2, offers = case["mode"], case["upstream_alpn"], case["http2"], case["offers"]
+    e = env()
+    e["tctx"].options.http2 = http2
+    client = connection.Client(peername=("192.0.2.1", 1234), sockname=("192.0.2.2", 8080), timestamp_start=0,
+                               state=connection.ConnectionState.OPEN, proxy_mode=ProxyMode.parse(mode))
+    ctx = mcontext.Context(client, e["tctx"].options)
+    top = modes.ReverseProxy(ctx)
+    cl, cinc, cout = std_client(offers, sni="up.example")
+    up, uinc, uout = upstream_peer(up_alpn)
+    seen = {"upstream_first": None, "server_alpn_at_client_start": "no tls_start_client hook", "established": False, "failed": None}
+
+    def feed(ev):
+        pending = [ev]
+        while pending:
+            x = pending.pop(0)
+            for c in top.handle_event(x):
+                if isinstance(c, mcommands.OpenConnection):
+                    c.connection.state = connection.ConnectionState.OPEN
+                    pending.append(mevents.OpenConnectionCompleted(c, None))
+                elif isinstance(c, mlayer.NextLayerHook):
+                    e["nl"].next_layer(c.data)
+                    pending.append(mevents.HookCompleted(c, None))
+                elif isinstance(c, ptls.TlsClienthelloHook):
+                    e["tc"].tls_clienthello(c.data)
+                    pending.append(mevents.HookCompleted(c, None))
+                elif isinstance(c, ptls.TlsStartServerHook):
+                    e["tc"].tls_start_server(c.data)
+                    pending.append(mevents.HookCompleted(c, None))
+                elif isinstance(c, ptls.TlsStartClientHook):
+                    seen["upstream_first"] = bool(ctx.server.tls_established)
+                    seen["server_alpn_at_client_start"] = ctx.server.alpn
+                    e["tc"].tls_start_client(c.data)
+                    pending.append(mevents.HookCompleted(c, None))
+                elif isinstance(c, ptls.TlsEstablishedClientHook):
+                    seen["established"] = True
+                    pending.append(mevents.HookCompleted(c, None))
+                elif isinstance(c, (ptls.TlsFailedClientHook, ptls.TlsFailedServerHook)):
+                    seen["failed"] = c.data.conn.error
+                    pending.append(mevents.HookCompleted(c, None))
+                elif isinstance(c, mcommands.StartHook):
+                    pending.append(mevents.HookCompleted(c, None))
+                elif isinstance(c, mcommands.SendData):
+                    (cinc if c.connection is client else uinc).write(c.data)
+
+    f0 = {"via": "server-first", "mode": mode.split(":")[1], "http2": http2, "upstream": "none-negotiated" if not up_alpn else "alpn-capable"}
+    cdone = udone = False
+    try:
+        feed(mevents.Start())
+        for _ in range(40):
+            progress = False
+            if not udone:
+                try:
+                    up.do_handshake()
+                    udone = True
+                except ssl.SSLWantReadError:
+                    pass
+            data = uout.read()
+            if data:
+                progress = True
+                feed(mevents.DataReceived(ctx.server, data))
+            if not cdone:
+                cdone, data = client_step(cl, cout)
+                if data:
+                    progress = True
+                    feed(mevents.DataReceived(client, data))
+            if (cdone and seen["established"]) or not progress:
+                break
+    except KeyboardInterrupt:
+        raise
+    except BaseException as ex:
+        t.bad("stack_handshake_completes", f0, case, "completed handshakes", repr(ex))
+        return
+    if not t.judge("stack_handshake_completes", cdone and udone and seen["established"] and not seen["failed"], f0, case, "completed handshakes",
+                   {**seen, "client_done": cdone, "upstream_done": udone}):
+        return
+    usel = up.selected_alpn_protocol()
+    usel = usel.encode() if usel is not None else None
+    sel = cl.selected_alpn_protocol()
+    sel = sel.encode() if sel is not None else None
+    if verbose:
+        print("  %s http2=%r upstream server ALPN=%r client offers=%r: upstream negotiated %r (server.alpn=%r when the client context was built, upstream first=%r) -> client negotiated %r" % (
+            mode, http2, up_alpn, offers, usel, seen["server_alpn_at_client_start"], seen["upstream_first"], sel))
+    if not seen["upstream_first"]:
+        # not the situation this part is about; nothing is known about upstream when the client is answered
+        t.note("server-first case in which the upstream handshake was not completed first")
+        judge_selection(t, "server-first", offers, None, http2, None, sel, case, {"mode": f0["mode"]})
+        return
+    # what the independent upstream server says was negotiated is the known upstream protocol
+    judge_selection(t, "server-first", offers, usel if usel is not None else b"", http2, None, sel, case, {"mode": f0["mode"]})
+    t.outcome(["server-first", f0["mode"], http2, ucls(usel if usel is not None else b""), pcls(sel)])
+
+
 def hs_chunk(cases):
     t = Tally()
     for c in cases:
         if c["part"] == "handshake":
             hs_case(c, t)
+        elif c["part"] == "serverfirst":
+            serverfirst_case(c, t)
         else:
             stack_case(c, t)
         t.case(c if c["offers"] == [H2, H11] and c["http2"] else None, nontrivial=bool(c["offers"]), key=c)
@@ -392,14 +520,23 @@ def run(ctx):
         for http2 in (True, False):
             for offers in STACK_OFFERS:
                 hs.append({"part": "stack", "mode": mode, "http2": http2, "offers": offers})
-    ctx.bounds = {"protocols": [p.decode() for p in PROTOS], "offer_list_maxlen": maxlen, "upstream": ["unknown(None)", "none negotiated(b'')"] + [p.decode() for p in PROTOS],
+    for mode in SF_MODES:
+        for up_alpn in SF_UPSTREAM_ALPN:
+            for http2 in (True, False):
+                for offers in SF_OFFERS:
+                    hs.append({"part": "serverfirst", "mode": mode, "upstream_alpn": up_alpn, "http2": http2, "offers": offers})
+    ctx.bounds = {"serverfirst_modes": SF_MODES, "serverfirst_upstream_server_alpn": [None if a is None else [x.decode() for x in a] for a in SF_UPSTREAM_ALPN],
+                  "serverfirst_offers": [[o.decode() for o in x] for x in SF_OFFERS],
+                  "protocols": [p.decode() for p in PROTOS], "offer_list_maxlen": maxlen, "upstream": ["unknown(None)", "none negotiated(b'')"] + [p.decode() for p in PROTOS],
                   "http2": [True, False], "client_alpn_override": [None, "http/1.1"], "callback_cases": len(cases),
                   "handshake_configs": LAYER_CONFIGS, "handshake_upstreams": [ucls(u) for u in HS_UPSTREAMS], "handshake_offers": [[o.decode() for o in x] for x in HS_OFFERS],
                   "stack_modes": STACK_MODES, "stack_offers": [[o.decode() for o in x] for x in STACK_OFFERS], "handshakes": len(hs)}
-    env()  # CA and addons once, inherited by the workers
-    par.pmap_tally(cb_chunk, cases, ctx.tally)
+    env()  # CA and addons once per process
+    # measured: the whole callback product costs < 1 s of CPU and the handshakes ~5 s; starting a process pool costs
+    # more than that on a busy machine, so everything runs in-process (same chunking, same merge order)
+    par.pmap_tally(cb_chunk, cases, ctx.tally, nproc=1)
     ctx.log("callback product done: %d cases" % len(cases))
-    par.pmap_tally(hs_chunk, hs, ctx.tally, nchunks=16)
+    par.pmap_tally(hs_chunk, hs, ctx.tally, nchunks=16, nproc=1)
     ctx.log("handshakes done: %d" % len(hs))
     ctx.tally.add("callback_cases", len(cases))
     ctx.tally.add("real_handshakes", len(hs))
@@ -410,5 +547,7 @@ def replay(case, t: Tally, verbose=False):
         cb_case(case, t, verbose=True)
     elif case["part"] == "handshake":
         hs_case(case, t, verbose=True)
+    elif case["part"] == "serverfirst":
+        serverfirst_case(case, t, verbose=True)
     else:
         stack_case(case, t, verbose=True)
